@@ -1138,6 +1138,83 @@ def mirror_sense(repo: Repo) -> RuleRun:
 
 mirror_sense.rule_id = "C09.MIRROR-SENSE"
 
+def angle_axis_exact(repo: Repo, prop: str = PROP, rule: str = "C09.ANGLE-AXIS-EXACT") -> RuleRun:
+    """The axis of an angle-and-axis arc is a direction with a sense of rotation (an axial vector): under a reflection in a plane
+    with normal n - of ANY length - it becomes -M(axis), M the reflection; under a scaling by any ratio, negative ones included
+    (a point reflection: det = -1, Q(axis) = -axis, so det * Q(axis) = axis), it stays as it is; its length is never changed.
+    Angle.mirror and Angle.scale are run over exact rational axes and normals (unit and non-unit) and compared with that."""
+    from fractions import Fraction
+
+    from .. import exact
+    from ..peval import NotEvaluable, Obj, Raised
+
+    r = RuleRun(prop, rule, floor=8, what="Angle.mirror turns the axis into -M(axis) for unit and non-unit plane normals; Angle.scale leaves it alone for positive and negative ratios (exact rational evaluation)")
+    cls = repo.cls("construct.edges.Angle")
+    vec_cls = repo.cls("construct.point.Vector")
+
+    def fresh(axis):
+        e = Obj("angle-edge", cls=cls)
+        e.set("angle", 1)
+        v = Obj("axis", cls=vec_cls)
+        v.set("position", exact.vec(*axis))
+        v.set("projected_to", [])
+        e.set("axis", v)
+        return e
+
+    def run(method, edge, args):
+        fn = repo.find_method(cls, method)
+        if fn is None:
+            raise AnalysisError(f"Angle.{method} vanished")
+        try:
+            exact.evaluator(repo, fn.module).call_funcinfo(fn, [edge, *args])
+        except Raised as err:
+            return f"raises {err.exc_name}"
+        except NotEvaluable as err:
+            raise AnalysisError(f"Angle.{method} not evaluable over exact rational vectors: {err}") from err
+        return None
+
+    def _show(v):
+        try:
+            return tuple(str(exact.value(x)) for x in v.c)
+        except Exception:  # noqa: BLE001
+            return repr(v)
+
+    axis = (Fraction(2, 7), Fraction(3, 7), Fraction(6, 7))
+    for n_ in ((0, 0, 1), (3, 4, 0), (0, 2, 0), (2, 3, 6), (Fraction(1, 9), Fraction(4, 9), Fraction(8, 9))):
+        e = fresh(axis)
+        err = run("mirror", e, [exact.vec(*n_), exact.vec(5, -1, 2)])
+        nn = sum(Fraction(x) * x for x in n_)
+        d = sum(Fraction(a) * b for a, b in zip(axis, n_))
+        want = tuple(-(Fraction(a) - 2 * d * Fraction(b) / nn) for a, b in zip(axis, n_))
+        got = e.get("axis").get("position")
+        r.check(
+            err is None and isinstance(got, exact.Vec) and exact.same(got, exact.vec(*want)),
+            repo.find_method(cls, "mirror"),
+            f"mirror, plane normal {tuple(str(x) for x in n_)}: axis -> -M(axis)",
+            f"Angle.mirror with plane normal {tuple(str(x) for x in n_)} (length {'1' if nn == 1 else 'not 1'}) " + (err or f"turns the axis {tuple(str(x) for x in axis)} into {_show(got)}; -M(axis) is {tuple(str(x) for x in want)}")
+            + ": a mirror plane given by a normal that is not of unit length - [1,1,0], the cross product of two edges - leaves an axis that is neither the reflected one nor of unit length, and the arc is written on the wrong circle",
+            repo.find_method(cls, "mirror").node,
+            key=f"mirror:{tuple(str(x) for x in n_)}",
+        )
+    for ratio in (2, Fraction(1, 3), -1, -2, Fraction(-1, 2)):
+        e = fresh(axis)
+        err = run("scale", e, [exact.c(ratio), exact.vec(1, 2, 3)])
+        got = e.get("axis").get("position")
+        r.check(
+            err is None and isinstance(got, exact.Vec) and exact.same(got, exact.vec(*axis)),
+            repo.find_method(cls, "scale"),
+            f"scale by {ratio}: axis unchanged",
+            f"Angle.scale by {ratio} " + (err or f"turns the axis {tuple(str(x) for x in axis)} into {_show(got)}") + ": a scaling - also by a negative ratio, a point reflection, which maps the arc's end points through the origin AND "
+            "reverses nothing about its sense of rotation as seen along the axis - leaves the axis of an angle edge as it is",
+            repo.find_method(cls, "scale").node,
+            key=f"scale:{ratio}",
+        )
+    return r
+
+
+angle_axis_exact.rule_id = "C09.ANGLE-AXIS-EXACT"
+
+
 def geometry_role_free(repo: Repo) -> RuleRun:
     """'mirroring any entity ... gives the same ... as applying that map to the geometry produced by the untransformed entity' - the declared searchable surface included. Same rule as C06.GEOMETRY-ROLE-FREE."""
     from . import c06
@@ -1307,4 +1384,15 @@ def shear_sign(repo: Repo, prop: str = PROP, rule: str = "C09.SHEAR-SIGN") -> Ru
 shear_sign.rule_id = "C09.SHEAR-SIGN"
 
 
-RULES = [arc_sense, purity, no_alias_store, affine_balance, unit_normal, direction_parts, transform_equals_methods, transform_routing, linear_parts, deep_copy, mirror_matrix, no_shared_parts, arguments_untouched, super_forwarding, inplace_then_read, invalidate_last, live_lengths, private_coordinates, live_arrays, displacement_copied, average_axis, unit_axis, mirror_sense, geometry_role_free, applied_once, shear_unit_direction, length_direction, remembered_points_current, shear_sign]
+
+def no_memo(repo: Repo) -> RuleRun:
+    """'transforming an entity ... about its default origin': the default origin is the entity's centre as it is NOW - nothing in the construct package memoises a view of state that a later transformation changes. Same rule body as C03.NO-MEMO."""
+    from ..memo import memo_rule
+
+    return memo_rule(repo, PROP, "C09.NO-MEMO", ("construct.", "base."), floor=0)
+
+
+no_memo.rule_id = "C09.NO-MEMO"
+
+
+RULES = [arc_sense, purity, no_alias_store, affine_balance, unit_normal, direction_parts, transform_equals_methods, transform_routing, linear_parts, deep_copy, mirror_matrix, no_shared_parts, arguments_untouched, super_forwarding, inplace_then_read, invalidate_last, live_lengths, private_coordinates, live_arrays, displacement_copied, average_axis, unit_axis, mirror_sense, geometry_role_free, applied_once, shear_unit_direction, length_direction, remembered_points_current, shear_sign, angle_axis_exact, no_memo]
